@@ -25,7 +25,7 @@ type ProgressData struct {
 
 func (d ProgressData) Log(logger *slog.Logger) {
 	logger.Info("progress", log.IterationStatsGroup(
-		0,
+		d.SuccessfulIterationCount+d.FailedIterationCount+d.DroppedIterationCount,
 		d.SuccessfulIterationCount,
 		d.FailedIterationCount,
 		d.DroppedIterationCount,
